@@ -320,5 +320,20 @@ func checkC08(c *Ctx) {
 			}
 		}
 	})
+	// systematic long family: one Join per list length 0..70 (and per delimiter, per rotation of the seeds)
+	c.Section("C08/concat-long", map[string]interface{}{"list_lengths": "every length 0..70", "delimiters": len(joinDelims), "rotations": ns}, 71*ns, func(i int, w *Worker) {
+		n, rot := i/ns, i%ns
+		rs := make([]int, n)
+		for k := range rs {
+			rs[k] = (k + rot) % ns
+		}
+		for di := range joinDelims {
+			w.Eval()
+			if d := c08Concat(rs, di, w.SeenS); d != "" {
+				w.Fail("concat-long", map[string]interface{}{"Rs": rs, "D": di}, d)
+			}
+		}
+	})
+	replayers["C08/concat-long"] = replayers["C08/concat"]
 	c.Assume("redactables are those obtainable from the library within two rounds of printing/joining from 13 seeds; deeper histories are covered by the 3-round re-print identity (a fixpoint after one round)")
 }
